@@ -2,8 +2,8 @@
    Theorem / exact / Print Assumptions only; proofs in Proofs.FingerprintProofs, model in Model.Fingerprint,
    hash model in Model.PyHash. *)
 From Coq Require Import String ZArith List Bool Permutation.
-From Model Require Import PyBase Graph PyHash Fingerprint FingerprintCGR LinearSmiles FingerprintVec MorganSmiles LinearSpell LinearSmilesFull.
-From Proofs Require Import FingerprintProofs FingerprintCGRProofs MorganNbhd MorganNbhdCGR LinearSmilesProofs LinearSmilesFixed FingerprintVecProofs MorganSmilesProofs LinearSpellProofs FingerprintConstsProofs.
+From Model Require Import PyBase Graph PyHash Fingerprint FingerprintCGR LinearSmiles FingerprintVec MorganSmiles LinearSpell LinearSmilesFull ChainsTrace.
+From Proofs Require Import FingerprintProofs FingerprintCGRProofs MorganNbhd MorganNbhdCGR LinearSmilesProofs LinearSmilesFixed FingerprintVecProofs MorganSmilesProofs LinearSpellProofs FingerprintConstsProofs ChainsTraceProofs.
 From Gen Require Import FingerprintConsts.
 Import ListNotations.
 Open Scope Z_scope.
@@ -815,3 +815,22 @@ Theorem C17_generated_constants_agree :
   (forall o, ~ In o (map fst fpc_bond_spelling) -> spell_bond_of o = fpc_bond_default).
 Proof. exact generated_constants_agree. Qed.
 Print Assumptions C17_generated_constants_agree.
+
+(* ==================================================================================================== *)
+(* ROUND 3 (3): for min_radius = 1 the deque of _chains is filled from a SET (`deque(arr)`), in CPython's set iteration order,
+   which is not modelled.  From ANY order q0 of the single-atom chains the loop (chains_seq_loop_from) terminates, its sequence of
+   additions is a rearrangement of the one the theorems are about, and its set is chains g lo hi: the order is immaterial. *)
+Theorem C17_chains_loop_initial_order : forall g lo hi q0, wf_mol g = true -> Permutation q0 (singles g) ->
+  exists r, chains_seq_loop_from (fuel_needed g hi (length (ids g)) q0) g lo hi q0 = Some r /\
+            Permutation r (chains_seq g lo hi) /\ (forall p, In p r <-> In p (chains g lo hi)).
+Proof. exact chains_loop_initial_order. Qed.
+Print Assumptions C17_chains_loop_initial_order.
+
+Theorem C17_example_initial_order :
+  Permutation [[4]; [1]; [3]; [2]] (singles ex_mol) /\
+  chains_pops 100 ex_mol 3 [[4]; [1]; [3]; [2]] =
+    Some [[4]; [1]; [3]; [2]; [4; 2]; [1; 2]; [3; 2]; [2; 1]; [2; 3]; [2; 4]] /\
+  set_paths (match chains_seq_loop_from 100 ex_mol 1 3 [[4]; [1]; [3]; [2]] with Some r => r | None => [] end) =
+  set_paths (chains ex_mol 1 3).
+Proof. exact example_initial_order. Qed.
+Print Assumptions C17_example_initial_order.
